@@ -33,6 +33,9 @@ META = dict(
          "listen() runs (between messages), on the worker's broker (decorator / register_task), through async_shared_broker (global "
          "registry, default broker set before / after / never) or on another broker object (unknown to this worker: skipped);"
          " Further family (own random stream): the REAL taskiq.api.run_receiver_task coroutine runs for the whole scenario over a scripted listen() that raises 0..3 times (ConnectionError, RuntimeError, TimeoutError, OSError, EOFError, a client's own class, a falsy exception object, an ExceptionGroup, BrokerError) as the first thing a session does / right after taking a message / while tasks are in flight / while idle, the remaining messages going to the re-started listening; N and wait_tasks_timeout set by the receiver class handed to it, stop = the finish event it gave to listen(); decided by the direct oracles only, every listen() session held to the statement by its own messages; "
+         "further family: run_receiver_task cancelled by the application that embeds it while sync functions (with durations) wait in a "
+         "pool of 1..3 threads (recv_props.gen_live_cancel): a message acknowledged under when_executed / when_saved must have entered its function, un-run un-acknowledged messages are not claimed; "
+         "part of the command-line scenarios is run by the real start_listen on the loop it creates; "
          "non-trivial iff >= 2 valid messages and (a stop instant, or N, or a malformed / unknown message, "
          "or a backlog > A+P+1); distinct by canonical scenario",
     trusted_base=["model: coq/theories/RecvLTS.v; defective variant coq/findings/FindingsRecv.v",
@@ -50,6 +53,8 @@ PROF = dict(stop_p=.4, n_p=.35, ends_p=.2, wtt_p=.25, never=.03, wire_p=.3, reg_
 PROF_BACKLOG = dict(backlog=True, stop_p=.3, n_p=.5, ends_p=.1, wtt_p=.2, wire_p=.3, reg_p=.15)
 # run_receiver_task running for the whole scenario over a listen() that fails 0..3 times (recv_props.gen_live)
 PROF_LIVE = dict(stop_p=.4, n_p=.3, ends_p=.15, wtt_p=.2, wire_p=.2, reg_p=.3)
+# run_receiver_task cancelled by the application that embeds it while sync functions wait in a small pool (recv_props.gen_live_cancel)
+PROF_CANCEL = dict(stop_p=.12, n_p=.08, ends_p=.1, wtt_p=.08, slowcancel=.05, aw_p=.12, outage_p=.05, wire_p=.1)
 
 
 def oracle(sc, obs):
@@ -88,6 +93,22 @@ def oracle(sc, obs):
         wend = min([tags.index(t) for t in ("RETURN", "WORKER.END") if t in tags] + [len(tags)])
         over = {e[2] for e in f.raw[:wend] if e[1] == "cb.end"}
         missing = [i for i in missing if i not in f.dropped and (f.final(i) or i in over or not f.cbstart.get(i))]
+    if f.cancel_t is not None:
+        # the application that embeds the receiver CANCELLED the run_receiver_task task (recv_props.gen_live_cancel): not a
+        # graceful stop - what the worker had taken and not yet run stays un-run and, not being acknowledged, goes back to the
+        # broker: no claim.  "Never zero (silently dropped)" is still claimed for a message that WAS acknowledged under an
+        # acknowledge type that promises the function has run by then (when_executed / when_saved): acknowledged and never run
+        # = silently dropped.  (when_received acknowledges first: a cancellation between the two is the price of that type.)
+        if (sc.get("ack_type") or "when_saved") != "when_received":
+            silently = [i for i in missing if f.acks.get(i) and not msgs[i].get("tlabel_us")]
+            for i in silently:       # (one failure per message: each carries the signature elements of known finding D16)
+                out.append(dict(what="the worker task was cancelled; a valid message taken from the broker was acknowledged although "
+                                     "its task function never ran (silently dropped)",
+                                observed=dict(never_run_but_acknowledged=i, cancelled_at_us=f.cancel_t, ack_calls_at_us=f.acks[i],
+                                              result_error=f.err.get(i)),
+                                expected="a message that is acknowledged (when_executed / when_saved) has entered its task function once",
+                                sig=dict(kind="acked-never-run", d16=R.d16_facts(sc, f, i, f.acks[i][0]))))
+        missing = []
     older = [i for i in missing if not f.final(i)]
     if older:
         out.append(dict(what="a valid message taken from the broker and handed to a callback before listen() failed never entered "
@@ -162,6 +183,14 @@ def run(ctx):
     scs = [R.gen_scenario(r, PROF if i % 3 else PROF_BACKLOG) for i in range(ctx.n(450, 30000))]
     r4 = ctx.sub_rng("gen-live")             # own stream: the scenarios above are what they were
     scs += [R.gen_live(r4, PROF_LIVE) for _ in range(ctx.n(60, 4000))]
+    r5 = ctx.sub_rng("gen-cancel")           # own stream
+    # known finding D16 (sync function submitted after the pool was shut down by the cancellation) is registered per property: while
+    # known_findings.json has no `known` entry with that signature for C01, this family is generated without its neighbourhood
+    # (sync-function messages reach the pool without suspending); with an entry the neighbourhood is explored and exactly that shape
+    # is the known finding (R.sig_d16), anything else a violation
+    d16_reg = R.d16_registered("C01")
+    rep.extra["known_finding_D16_registered_for_C01"] = d16_reg
+    scs += [R.gen_live_cancel(r5, dict(PROF_CANCEL, presubmit_restricted=not d16_reg)) for _ in range(ctx.n(40, 2000))]
     broken = explore(ctx, rep, scs, "main")
     if not ctx.quick:
         broken = explore(ctx, rep, R.grid_scenarios(), "grid") or broken
@@ -169,7 +198,8 @@ def run(ctx):
     if (broken or any(not o["ok"] for o in rep.obligations)) and not rep.failures:
         r2 = ctx.sub_rng("search")
         explore(ctx, rep, [R.gen_scenario(r2, PROF_BACKLOG) for _ in range(ctx.n(2000, 20000))], "search")
-    return rep.finish()
+    rep.extra["known_finding_D16_hits_this_run"] = sum(1 for f in rep.failures if R.sig_d16(f))
+    return rep.finish({R.SIG_D16: R.sig_d16}, {})
 
 
 def replay(ctx, path):
